@@ -318,6 +318,7 @@ def check_yields(chk, ctx):
                                rel=run_.rel, node=rec.node)
                     continue
                 bad = None
+                combos = nbad = 0
                 for w1 in fl[0]:
                     for w2 in fl[1]:
                         for s_ in sv:
@@ -327,7 +328,11 @@ def check_yields(chk, ctx):
                                 bad = f"Forward(.., {w1}, {w2}, {s_}) writes data to no storage"
                             if w1 and w2:
                                 bad = f"Forward(.., {w1}, {w2}, {s_}) stores restart data and adjoint dependencies in one checkpoint"
-                single = all(len(x) == 1 for x in fl) and len(sv) == 1
+                            combos += 1
+                            isbad = (s_ in ("StorageType.RAM", "StorageType.DISK") and not (w1 or w2)) or \
+                                (s_ == "StorageType.NONE" and (w1 or w2)) or (w1 and w2)
+                            nbad += 1 if isbad else 0
+                single = (all(len(x) == 1 for x in fl) and len(sv) == 1) or (combos and nbad == combos)
                 chk.decide("C18.FLAGS", cons, True if bad is None else (False if single else None),
                            (bad or f"flags/storage consistent: {fl} {sorted(sv)}") + (f" under {cfg}" if cfg else ""),
                            rel=run_.rel, node=rec.node)
